@@ -18,6 +18,8 @@ warnings.filterwarnings("ignore", category=SyntaxWarning)
 
 ROOT = os.path.dirname(os.path.dirname(os.path.abspath(__file__)))
 sys.path.insert(0, ROOT)
+if os.environ.get("VERIF_REPO") and os.path.abspath(os.environ["VERIF_REPO"]) != "/repo":
+    sys.path.insert(0, os.environ["VERIF_REPO"])        # self-test on a scratch copy: import flowpaths from there, too
 EVID = os.path.join(ROOT, "evidence")
 REPLAY = os.path.join(ROOT, "replay")
 LOCK = os.path.join(ROOT, "contracts", "OBLIGATIONS.lock")
@@ -159,8 +161,13 @@ def check_property(pid, tier, seed, procs, relock=False):
                            replay=rp), open(path, "w"), indent=1, default=str)
             confirmed = bool(rp and rp.get("ok"))
             if kf:
-                known_hits.append("KNOWN-FINDING: property=%s %s" % (pid, kf["what_fails"]))
+                msg = "KNOWN-FINDING: property=%s %s" % (pid, kf["what_fails"])
+                if msg not in known_hits:
+                    known_hits.append(msg)
+            elif any(("obligation=%s " % fp) in v or v.endswith("obligation=%s" % fp) for v in violations):
+                pass        # same obligation reached on another path: one VIOLATION line per obligation
             else:
+                o = dict(o, name=fp)
                 violations.append("VIOLATION property=%s replay=%s obligation=%s%s" % (
                     pid, os.path.relpath(path, ROOT), o["name"], "" if confirmed else " no-failing-input-found"))
 
